@@ -962,6 +962,9 @@ func (d *DotGit) genObjectList() error {
 		return nil
 	}
 	if err := d.forEachObjectHash(populate); err != nil {
+		// A partial list must not pass for the complete one.
+		d.objectMap = nil
+		d.objectList = nil
 		return err
 	}
 	plumbing.HashesSort(d.objectList)
